@@ -2101,7 +2101,7 @@ class Array:
         labels = self._labels
         labels[axis1], labels[axis2] = labels[axis2], labels[axis1]
         self._set_shape()
-        self._qdata = self._qdata[:, swap]
+        self._qdata = np.ascontiguousarray(self._qdata[:, swap])  # (fancy indexing of columns gives F-order)
         self._qdata_sorted = False
         self._data = [t.swapaxes(axis1, axis2) for t in self._data]
         return self
